@@ -381,6 +381,8 @@ from extract_expr import expr_section  # noqa: E402  (C16)
 EXTRA_SECTIONS.append(expr_section)
 from extract_crash import crash_facts; EXTRA_SECTIONS.append(crash_facts)  # C05 (EngineCrash.lean)
 import extract_clean; EXTRA_SECTIONS.append(extract_clean.section)  # noqa: E402,E702  (M8, C11)
+from extract_capture import capture_section  # noqa: E402
+EXTRA_SECTIONS.append(capture_section)
 
 
 def main(write: bool = True) -> int:
